@@ -129,6 +129,33 @@ class HaloStacksOneSided(Part):
         return {"nontrivial": nontrivial, "classes": ["template=" + case["template"]]}
 
 
+class Conv2dTwoPartitions(Part):
+    name = "conv2d-two-partitioned-ranks"
+    rule = ("2-D convolutions O[p,q] = I[p+r, q+s] * F[r,s] with BOTH output index ranks shape-partitioned (symbolic sizes) and both "
+            "input ranks follow()-ing them, every interleaving of [P1,P0], [Q1,Q0], [R], [S] as loop order, constructed outside every "
+            "known-finding class; executed on the drawn and on an all-dense input and compared with dense evaluation (two projection "
+            "intervals, two halos in one Einsum). Non-trivial = both filter extents >= 2 or >= 2 partitions formed.")
+
+    def budget(self, tier):
+        return {"quick": dict(examples=120, shards=2, seconds=60),
+                "thorough": dict(examples=1500, shards=8, seconds=400)}[tier]
+
+    def strategy(self, tier):
+        return gen.case_conv2p(max_extent=5 if tier == "quick" else 7)
+
+    def run_case(self, case):
+        spec = case["spec"]
+        text = str(oracle.compile_or_skip(spec))
+        nontrivial = False
+        for variant in ("drawn", "dense"):
+            c = case if variant == "drawn" else dict(case, inputs=dense_inputs(case))
+            run = oracle.run_or_violation(text, c, what="program (%s input)" % variant)
+            exp = oracle.compare_outputs(c, run, what="program (%s input)" % variant)
+            if exp["O"] and (min(case["extents"]["R"], case["extents"]["S"]) >= 2 or run["stats"].get("splitUniform>=2", 0) > 0):
+                nontrivial = True
+        return {"nontrivial": nontrivial, "classes": ["template=conv2p"]}
+
+
 # --------------------------------------------------------------------------
 # excluded classes of known findings (predicates on the case)
 
@@ -297,4 +324,4 @@ EXCLUDED = {
 }
 
 
-PARTS = [Main(), HaloStacksOneSided()]
+PARTS = [Main(), HaloStacksOneSided(), Conv2dTwoPartitions()]
